@@ -184,6 +184,32 @@ def eval_ids(args):
 _IDS = {}
 
 
+def subst_selector_schema(ver, kind):
+    return _cls(ver)(f'''<xs:schema {XS}><xs:complexType name="T"><xs:attribute name="k" type="xs:int"/></xs:complexType>
+ <xs:element name="item" type="T"/><xs:element name="special" type="T" substitutionGroup="item"/><xs:element name="loose" type="T"/>
+ <xs:element name="r"><xs:complexType><xs:sequence><xs:element ref="item" minOccurs="0" maxOccurs="unbounded"/>
+   <xs:element name="w" minOccurs="0"><xs:complexType><xs:sequence><xs:any namespace="##local" processContents="strict" minOccurs="0" maxOccurs="unbounded"/></xs:sequence></xs:complexType></xs:element>
+   <xs:element name="f" minOccurs="0" maxOccurs="unbounded" type="T"/></xs:sequence></xs:complexType>
+  <xs:{kind} name="K"><xs:selector xpath="item|special|w/loose"/><xs:field xpath="@k"/></xs:{kind}><xs:keyref name="R" refer="K"><xs:selector xpath="f"/><xs:field xpath="@k"/></xs:keyref></xs:element></xs:schema>''')
+
+
+def eval_subst_selector(args):
+    """a selector that is a union of a statically resolved branch (item) and of branches naming global elements that occur only as substitution-group members of item or through a wildcard:
+    every selected node counts - duplicates, missing key fields and references are judged over all of them"""
+    ver, kind, rows, refs = args
+    s = _S2.get((ver, kind)) or _S2.setdefault((ver, kind), subst_selector_schema(ver, kind))
+    el = lambda tag, v: f'<{tag}' + (f' k="{v}"' if v is not None else '') + '/>'
+    subs = [r for r in rows if r[0] != 'loose']; loose = [r for r in rows if r[0] == 'loose']
+    doc = '<r>' + ''.join(el(t, v) for t, v in subs) + ('<w>' + ''.join(el(t, v) for t, v in loose) + '</w>' if loose else '') + ''.join(el('f', v) for v in refs) + '</r>'
+    exp = key_table_ok(kind, [(v,) for _, v in subs + loose], [(v,) for v in refs])
+    try: got = s.is_valid(doc)
+    except Exception as e: got = f'EXC {type(e).__name__}'
+    return None if got == exp else dict(ver=ver, kind=kind, doc=doc, got=got, exp=exp)
+
+
+_S2 = {}
+
+
 def run(tier, seed, open_findings):
     jobs = [(nf, ft, kind, ver, seed, tier) for nf in (1, 2) for ft in LEX for kind in ('key', 'unique') for ver in ('1.0', '1.1')]
     jobs += [(1, ft, kind, '1.1', seed, tier, True) for ft in ('integer', 'decimal', 'boolean', 'UIntBool') for kind in ('key', 'unique')]
@@ -205,6 +231,12 @@ def run(tier, seed, open_findings):
         if r['groups'] >= 2 and isinstance(r['got'], bool) and 'C08-keyref-sees-only-the-last-descendant-key-table' in open_findings:
             lknown['C08-keyref-sees-only-the-last-descendant-key-table'] = lknown.get('C08-keyref-sees-only-the-last-descendant-key-table', 0) + 1; continue
         lf.append(dict(case=dict(levels=True, ver=r['ver'], kind=r['kind'], doc=r['doc']), observed=dict(valid=r['got']), required=dict(valid=r['exp'])))
+    rows1 = [(t, v) for t in ('item', 'special', 'loose') for v in (None, 1, 2)]
+    ssjobs = [(ver, kind, rows, refs) for ver in ('1.0', '1.1') for kind in ('key', 'unique') for n_ in (1, 2) for rows in itertools.product(rows1, repeat=n_) for refs in ((), (1,), (2,))
+              if not (kind == 'unique' and any(v is None for _, v in rows))]
+    ssres = pmap(eval_subst_selector, ssjobs)
+    out.append(result('C08.selectors_over_substitutes', f'{len(ssjobs)} documents: key / unique with the selector item|special|loose (special substitutes item, loose comes in through a wildcard), 1-2 selected rows over {{absent, 1, 2}} and one reference',
+                      len(ssjobs), [dict(case=dict(subst_selector=True, ver=r['ver'], kind=r['kind'], doc=r['doc'], exp=r['exp']), observed=dict(valid=r['got']), required=dict(valid=r['exp'])) for r in ssres if r], exhaustive=True))
     out.append(result('C08.refer_across_levels', f'{len(ljobs)} documents: keyref on r referring to a key / unique declared on the repeated child g; 0-2 g elements with <= 2 rows, <= 2 references over {{absent, 1, 2}}',
                       len(ljobs), lf, exhaustive=lex, known=lknown, samples=[dict(doc='<r><g><k v="1"/></g><f v="1"/></r>')]))
     qrows = [(own, child, local) for own in (None, 'B') for child in (None, 'A', 'B') for local in ('x', 'y')]
@@ -234,6 +266,8 @@ def run(tier, seed, open_findings):
 
 
 def replay(check_name, case):
+    if case.get('subst_selector'):
+        sch = subst_selector_schema(case['ver'], case['kind']); got = sch.is_valid(case['doc']); return dict(ok=got == case['exp'], observed=dict(valid=got), required=dict(valid=case['exp']))
     if case.get('qnames'):
         sch = qname_schema(case['ver'], case['kind']); got = sch.is_valid(case['doc'])
         return dict(ok=got == case['exp'], observed=dict(valid=got), required=dict(valid=case['exp']))
